@@ -31,8 +31,13 @@ static const void* tab_key[TAB];
 static long tab_val[TAB];
 static const void* const TOMB = (const void*)1;
 static long next_slot = 0;
+// slot -> Item (raw address) and the container (0/1) that owns it, for the per-slot cell dump
+enum { MAXSLOT = 1 << 16 };
+static const void* slot_item[MAXSLOT];
+static signed char slot_owner[MAXSLOT];
+static int g_cur = 0;
 static size_t tab_h(const void* p) { return (size_t)(((unsigned long long)p >> 4) * 0x9E3779B97F4A7C15ull >> 40) & (TAB - 1); }
-static void tab_clear() { memset(tab_key, 0, sizeof(tab_key)); next_slot = 0; }
+static void tab_clear() { memset(tab_key, 0, sizeof(tab_key)); memset(slot_item, 0, sizeof(slot_item)); next_slot = 0; }
 static long tab_get(const void* p)
 {
   for(size_t i = tab_h(p);; i = (i + 1) & (TAB - 1)) {
@@ -43,7 +48,7 @@ static long tab_get(const void* p)
 static void tab_del(const void* p)
 {
   for(size_t i = tab_h(p);; i = (i + 1) & (TAB - 1)) {
-    if(tab_key[i] == p) { tab_key[i] = TOMB; return; }
+    if(tab_key[i] == p) { if(tab_val[i] >= 0 && tab_val[i] < MAXSLOT) slot_item[tab_val[i]] = 0; tab_key[i] = TOMB; return; }
     if(tab_key[i] == 0) return;
   }
 }
@@ -51,7 +56,11 @@ static void tab_put(const void* p, long v)
 {
   tab_del(p);
   for(size_t i = tab_h(p);; i = (i + 1) & (TAB - 1))
-    if(tab_key[i] == 0 || tab_key[i] == TOMB) { tab_key[i] = p; tab_val[i] = v; return; }
+    if(tab_key[i] == 0 || tab_key[i] == TOMB) {
+      tab_key[i] = p; tab_val[i] = v;
+      if(v >= 0 && v < MAXSLOT) { slot_item[v] = p; slot_owner[v] = (signed char)g_cur; }
+      return;
+    }
 }
 
 // ---- the same rolling hash as the OCaml driver -------------------------------------------------
@@ -60,7 +69,6 @@ static long long hstep(long long h, long long x) { return (h * 31337 + (((x + 12
 
 static bool g_hash = false;
 static bool g_multi = false;
-static int g_cur = 0;
 
 template<class C> struct Drv
 {
@@ -159,6 +167,43 @@ template<class C> struct Drv
     if(bad) printf(" %s", bad);
   }
 
+  // raw fields of every live Item of container number `owner`, in slot order, pointers as slots
+  // (`-` null, `E` &endItem, -3 an address that is no live Item); compared with the cell machine
+  // of AvlHeapModel.v after every operation
+  static long pnum(C& c, const Item* p)
+  {
+    if(!p) return -1;
+    if(p == &c.endItem) return -2;
+    long s = tab_get(p);
+    return s < 0 ? -3 : s;
+  }
+  static void pput(long n) { if(n == -1) putchar('-'); else if(n == -2) putchar('E'); else printf("%ld", n); }
+  static void cells_out(C& c, int owner)
+  {
+    long nlive = 0;
+    for(long s = 0; s < next_slot && s < MAXSLOT; ++s) if(slot_item[s] && slot_owner[s] == owner) ++nlive;
+    long hd[4] = { pnum(c, c.root), pnum(c, c._begin.item), pnum(c, c.endItem.prev), (long)c._size };
+    bool full = nlive <= 24;
+    long long h = 7;
+    if(full) { printf("r="); pput(hd[0]); printf(" b="); pput(hd[1]); printf(" e="); pput(hd[2]); printf(" n=%ld ", hd[3]); }
+    else for(int i = 0; i < 4; ++i) h = hstep(h, hd[i]);
+    bool first = true;
+    for(long s = 0; s < next_slot && s < MAXSLOT; ++s) {
+      if(!slot_item[s] || slot_owner[s] != owner) continue;
+      const Item* it = (const Item*)slot_item[s];
+      long f[10] = { s, it->key.k, it->value, pnum(c, it->parent), pnum(c, it->left), pnum(c, it->right),
+                     (long)it->height, (long)it->slope, pnum(c, it->prev), pnum(c, it->next) };
+      if(full) {
+        if(!first) putchar(',');
+        printf("%ld:%ld:%ld:", f[0], f[1], f[2]); pput(f[3]); putchar(':'); pput(f[4]); putchar(':'); pput(f[5]);
+        printf(":%ld:%ld:", f[6], f[7]); pput(f[8]); putchar(':'); pput(f[9]);
+      } else for(int i = 0; i < 10; ++i) h = hstep(h, f[i]);
+      first = false;
+    }
+    if(full) { if(first) putchar('-'); }
+    else printf("c#%lld", h);
+  }
+
   // `other` != 0: an operation that reads the other container - its public and internal state is dumped too
   static void state_out(C& c, C* other)
   {
@@ -167,7 +212,8 @@ template<class C> struct Drv
     iter_out(c);
     printf(" | ");
     intern_out(c);
-    if(other) { printf(" / "); intern_out(*other); }
+    printf(" ; "); cells_out(c, g_cur);
+    if(other) { printf(" / "); intern_out(*other); printf(" ; "); cells_out(*other, 1 - g_cur); }
     putchar('\n');
   }
 
